@@ -45,6 +45,17 @@ def rand_tt(rng, N, R=None, dtype=tn.float64, M=None, lo=-2, hi=2, rmax=3):
     return torchtt.TT(cores)
 
 
+def noncontig(x):
+    """the same TT with cores that are NON-CONTIGUOUS views (values, shapes and ranks unchanged): mode-permuted storage, as produced by
+    `A.t()`, by `permute()`/`transpose()` of user cores, or by slicing with steps"""
+    cs = []
+    for c in x.cores:
+        perm = list(range(c.dim()))[::-1]
+        inv = [perm.index(i) for i in range(c.dim())]
+        cs.append(c.permute(perm).contiguous().permute(inv))
+    return torchtt.TT(cs)
+
+
 def dense_of(x):
     """independent contraction of the cores of a TT object (not via TT.full)"""
     return dense_of_cores(x.cores, x.is_ttm)
